@@ -26,6 +26,12 @@ def get_fb(f, drop_self=True):
 
     ret = FunctionBuilder.from_func(f)
 
+    posonly_count = getattr(getattr(f, '__code__', None), 'co_posonlyargcount', 0)
+    if posonly_count and isinstance(f, types.MethodType):
+        posonly_count -= 1  # "self" is passed positionally
+    if posonly_count:
+        raise TypeError('does not support positional-only parameters, all'
+                        ' arguments are injected by name: %r' % (f,))
     if not all([isinstance(a, str) for a in ret.args]):
         raise TypeError('does not support anonymous tuple arguments'
                         ' or any other strange args for that matter.')
